@@ -8,12 +8,17 @@
 (*   Conforms(in, obs)  - obs is a behaviour the specification allows      *)
 (*   Describe(in)       - what the specification expected (for the replay  *)
 (*                        file written by the driver)                      *)
+(*   Beyond(in)         - the input uses behaviour that the specification  *)
+(*                        describes but that no listed property fixes (the *)
+(*                        specification has grown past the list): a        *)
+(*                        disagreement there is reported as such, it is    *)
+(*                        not a violation of the property being checked    *)
 (* One step consumes one line.  A line that does not conform is reported   *)
 (* and the validation goes on, so that every line is examined.             *)
 (***************************************************************************)
 EXTENDS Naturals, Sequences, TLC, Json
 
-CONSTANTS Rec, Conforms(_, _), InDomain(_, _), Describe(_)
+CONSTANTS Rec, Conforms(_, _), InDomain(_, _), Describe(_), Beyond(_)
 VARIABLE l
 
 Init == l = 1
@@ -23,6 +28,7 @@ Step ==
   /\ LET r == Rec[l] IN
        IF ~InDomain(r.in, r.obs) THEN PrintT(<<"SKIP", l>>)
        ELSE IF Conforms(r.in, r.obs) THEN TRUE
+       ELSE IF Beyond(r.in) THEN PrintT(<<"BEYOND", l>>)
        ELSE PrintT(<<"MISMATCH", l, ToJson(Describe(r.in))>>)
   /\ l' = l + 1
 
